@@ -47,8 +47,8 @@ def find_adapters(F):
         if a.update is None:
             for f in fns:
                 b = f.built
-                if f.kind != "fn" or not str(b.locals[0]["ty"]).startswith("std::option::Option<") or "VectorDiff<" not in str(b.locals[0]["ty"]):
-                    continue
+                if f.kind not in ("fn", "assoc") or not str(b.locals[0]["ty"]).startswith("std::option::Option<") or "VectorDiff<" not in str(b.locals[0]["ty"]):
+                    continue   # (an associated function without a receiver - `Self::update_limit(limit, buffer, n)` - is the same shape)
                 muts = [i for i in range(1, b.arg_count + 1) if re.match(r"^&mut (usize|std::option::Option<usize>)$", str(b.locals[i]["ty"]))]
                 if muts and any("usize" == str(b.locals[i]["ty"]) for i in range(1, b.arg_count + 1)):
                     a.update_alt = f
